@@ -207,6 +207,8 @@ mod readme_doctest {}
 pub mod core;
 #[cfg(fuzzing)]
 pub mod fuzzing;
+#[cfg(fuzzing)]
+pub mod verif_hooks;
 pub mod word_splitters;
 pub mod wrap_algorithms;
 
